@@ -30,7 +30,25 @@ pub fn jstr(s: &str) -> String {
     o
 }
 
+/// `--scenario TEXT` or `--scenario @FILE` (large inputs do not fit on a command line)
+fn scenario_arg(args: &[String]) -> Scenario {
+    let a = arg(args, "--scenario").expect("--scenario");
+    let text = match a.strip_prefix('@') {
+        Some(path) => std::fs::read_to_string(path).expect("scenario file"),
+        None => a.to_string(),
+    };
+    Scenario::decode(text.trim()).expect("scenario text")
+}
+
 fn parse_decisions(s: &str) -> Vec<u16> {
+    let owned;
+    let s = match s.strip_prefix('@') {
+        Some(path) => {
+            owned = std::fs::read_to_string(path).expect("decision file");
+            owned.trim()
+        }
+        None => s,
+    };
     s.split(',').filter(|x| !x.is_empty()).map(|x| x.parse().expect("decision")).collect()
 }
 
@@ -143,7 +161,7 @@ fn main() {
         }
         "replay" => {
             let prop = arg(&args, "--prop").expect("--prop");
-            let scn = Scenario::decode(arg(&args, "--scenario").expect("--scenario")).expect("scenario text");
+            let scn = scenario_arg(&args);
             let dec = arg(&args, "--decisions").map(parse_decisions);
             let (rf, ex) = exec(&scn, dec, flag(&args, "--tolerant"));
             let (line, _, _) = report(prop, scn.seed, &scn, &rf, &ex, true);
@@ -161,7 +179,7 @@ fn main() {
         }
         "minimise" => {
             let prop = arg(&args, "--prop").expect("--prop");
-            let scn = Scenario::decode(arg(&args, "--scenario").expect("--scenario")).expect("scenario text");
+            let scn = scenario_arg(&args);
             let key = arg(&args, "--key").expect("--key");
             let budget: usize = arg(&args, "--runs").unwrap_or("400").parse().unwrap();
             let seconds: f64 = arg(&args, "--seconds").unwrap_or("60").parse().unwrap();
